@@ -393,3 +393,37 @@ Theorem seed_arith_total_lemma : forall ovf rng s p omax omin h l site,
 Proof.
   intros. split; [apply np_iff, random_cmd_total|split; reflexivity].
 Qed.
+
+(* ---------- LIST_RANDOM's "sorted for predictability" (sort by value only) ---------- *)
+From Coq Require Import Permutation.
+From Ink.Data Require Import InkListProofs.
+From Ink.Spec Require Import KeyOrder.
+
+Lemma Z_compare_flip_strict : strict_cmp (fun a b : Z => Z.compare b a).
+Proof.
+  constructor.
+  - intros; apply Z.compare_refl.
+  - intros a b H. symmetry. apply Z.compare_eq. exact H.
+  - intros a b. apply Z.compare_antisym.
+  - intros a b c H1 H2. rewrite Z.compare_lt_iff in *. eapply Z.lt_trans; eassumption.
+Qed.
+
+Theorem list_random_pick_order_independent : forall oo1 oo2 defs l n,
+  ord_ok oo1 -> ord_ok oo2 -> NoDup (map snd (l_items l)) ->
+  list_random_pick_o oo1 defs l n = list_random_pick_o oo2 defs l n.
+Proof.
+  intros oo1 oo2 defs l n [H1 _] [H2 _] Hnd. unfold list_random_pick_o.
+  rewrite (sort_by_order_independent _ _ (@snd listitem Z) _ Z_compare_flip_strict
+             (ord_items oo1 (l_items l)) (ord_items oo2 (l_items l))).
+  - reflexivity.
+  - eapply perm_trans; [apply H1|apply Permutation_sym, H2].
+  - eapply Permutation_NoDup; [apply Permutation_map, Permutation_sym, H1|exact Hnd].
+Qed.
+
+Theorem list_random_pick_order_refuted :
+  exists oo1 oo2 defs l n, ord_ok oo1 /\ ord_ok oo2 /\
+    list_random_pick_o oo1 defs l n <> list_random_pick_o oo2 defs l n.
+Proof.
+  exists ord_id, ord_rev, [(T "L", [(T "a", 1)]); (T "M", [(T "x", 1)])], tie_list, 0.
+  split; [apply ord_id_ok|]. split; [apply ord_rev_ok|]. vm_compute. discriminate.
+Qed.
